@@ -104,7 +104,7 @@ def concretize(rng, r, peers_in_view):
 # ---- TLC runs ------------------------------------------------------------------------------------------------------
 
 def write_consts(ctx, name, **kw):
-    c = dict(peers=NP, sizes=[0, 1], eps=["sql"], mutant="none", emit="none", depth=14)
+    c = dict(peers=NP, sizes=[0, 1], eps=["sql"], fmts=["arrow", "json", "csv", "bad"], mutant="none", emit="none", depth=14)
     c.update(kw)
     path = os.path.join(ctx.work, f"consts_{name}.json")
     with open(path, "w") as f:
@@ -112,11 +112,24 @@ def write_consts(ctx, name, **kw):
     return path
 
 
-def model_check(ctx, label, **kw):
+def model_check(ctx, label, workers=3, **kw):
     c = write_consts(ctx, "mc_" + kw.get("mutant", "none"), **kw)
     cfg = f"FrontDoor_{ctx.tier}.cfg"
-    return run_tlc("MCFrontDoor", cfg, workers=4, timeout=3000, env={"FD_CONSTS": c}, coverage=(ctx.tier == "thorough" and kw.get("mutant", "none") == "none"),
+    return run_tlc("MCFrontDoor", cfg, workers=workers, timeout=3000, env={"FD_CONSTS": c}, coverage=(ctx.tier == "thorough" and kw.get("mutant", "none") == "none"),
                    heap="4g", tag=f"{ctx.pid}-mc-{kw.get('mutant', 'none')}")
+
+
+# the endpoint on which each design mutant shows (keeps the kill-matrix runs small)
+MUTANT_EPS = {"auto_fallback": ["sql"], "force_local": ["sql"], "count_down_peers": ["sql"], "fragment_before_load": ["fragment"],
+              "ready_ignores_drain": ["readyz"], "doget_mode_auto": ["both"], "no_version_check": ["flight"], "gfi_executes": ["both"],
+              "trailer_last_slice": ["both"]}
+
+
+def kill_matrix(ctx, mutants, sizes):
+    out = {}
+    for m in mutants:
+        out[m] = model_check(ctx, m, workers=1, eps=MUTANT_EPS[m], sizes=sizes, fmts=["arrow"], mutant=m)
+    return out
 
 
 def emit_states(ctx, **kw):
@@ -154,17 +167,26 @@ def alphabet(eps, sizes):
 
 
 def histories_from_states(ctx, cases, reqs, per_state, rng, dies_prob=0.5):
-    """one history per TLC-emitted node state: its environment history, then requests of the alphabet"""
+    """one history per TLC-emitted node state: its environment history, then requests of the alphabet:
+    the cheap singletons (readyz, healthz), on a loaded node a core of (mode x mergeable / gather-only statement),
+    and `per_state` more drawn from the whole alphabet"""
     hs = []
+    singles = [r for r in reqs if r["ep"] in ("readyz", "healthz")]
     for case in cases:
         env = [dict(s) for s in case["h"]]
         st = case["s"]
         peers_in_view = any(v != "absent" for v in st["view"])
         draining = st["draining"]
-        pool = [r for r in reqs if not (draining and r["ep"] in ("flight", "both"))]
-        # the decision matters most on a loaded node with peers in view: sample more there
-        k = per_state * (2 if st["load"] == "loaded" and peers_in_view else 1)
-        chosen = rng.sample(pool, min(k, len(pool)))
+        pool = [r for r in reqs if not (draining and r["ep"] in ("flight", "both")) and r["ep"] not in ("readyz", "healthz")]
+        chosen = list(singles)
+        if st["load"] == "loaded" and peers_in_view:
+            for m in ("auto", "force", "off"):
+                for c in ("scatter", "gather"):
+                    cand = [r for r in pool if r["ep"] in ("sql", "both") and r["mode"] == m and r["st"]["c"] == c and r["fmt"] != "bad"]
+                    if cand:
+                        chosen.append(rng.choice(cand))
+        chosen += rng.sample(pool, min(per_state, len(pool)))
+        rng.shuffle(chosen)
         steps = env + [concretize(rng, r, peers_in_view) for r in chosen]
         # a peer dies while a request is pending (the decision was taken from the view, the fan-out meets the corpse)
         upalive = [i + 1 for i, v in enumerate(st["view"]) if v == "up" and st["alive"][i]]
@@ -321,50 +343,71 @@ def _validate(ctx, events, tag):
                           tag=f"{ctx.pid}-{tag}", heap="4g")
 
 
-def judge(ctx, outs, hists, tag, what, budget=8):
-    """All traces in one TLC run.  A line the contract rejects stops the run: VIOLATION, that history is taken
-    out and the rest re-validated.  Lines that are not steps of the as-built model are printed as DRIFT
-    (fidelity, exit 0).  Returns the number of histories accepted against the contract."""
+def judge(ctx, outs, hists, tag, what, budget=8, chunks=1):
+    """Traces are validated by TLC in `chunks` parallel runs.  A line the contract rejects stops its run:
+    VIOLATION, that history is taken out and the rest of the chunk re-validated.  Lines that are not steps of the
+    as-built model are printed as DRIFT (fidelity, exit 0).  Returns the number of histories accepted."""
+    from concurrent.futures import ThreadPoolExecutor
     traces = [trace_of(o) for o in outs]
-    todo = list(enumerate(traces))
-    n_ok, rnd = 0, 0
+    idxs = list(range(len(traces)))
+    chunks = max(1, min(chunks, len(idxs)))
+    parts = [idxs[k::chunks] for k in range(chunks)]
+    results = {}
+
+    def work(k, part):
+        todo = [(i, traces[i]) for i in part]
+        n_ok, rnd, drifts, viols, runs = 0, 0, {}, [], []
+        while todo:
+            events = [e for _, t in todo for e in t]
+            ok, rej, res = _validate(ctx, events, f"{tag}-{k}-{rnd}")
+            log(f"[{ctx.pid}] trace validation {tag}/{k}: {len(todo)} histories, {len(events)} events, {res.wall:.0f}s, "
+                f"{'accepted' if ok else 'REJECTED ' + json.dumps(rej)[:300]}")
+            runs.append((res, f"trace validation {tag}/{k}: {len(todo)} histories, {len(events)} events"))
+            starts, n = [], 0
+            for idx, t in todo:
+                starts.append((n, idx, t))
+                n += len(t)
+
+            def locate(line):
+                for n0, idx, t in starts:
+                    if line <= n0 + len(t):
+                        return idx, line - n0
+                raise ToolError(f"trace validation {tag}: line {line} outside the trace")
+            limit = len(events) if ok else rej["line"] - 1
+            for kind, d in res.prints:
+                if kind == "DRIFT" and d["line"] <= limit:
+                    idx, at = locate(d["line"])
+                    drifts.setdefault(idx, []).append((at, d))
+            if ok:
+                n_ok += len(todo)
+                break
+            idx, at = locate(rej["line"])
+            viols.append((idx, at, rej))
+            pos = [j for j, (i, _) in enumerate(todo) if i == idx][0]
+            n_ok += pos
+            todo = todo[pos + 1:]
+            rnd += 1
+            if rnd > budget:
+                raise ToolError(f"trace validation {tag}: more than {budget} rejected histories in one chunk")
+        return n_ok, drifts, viols, runs
+
+    with ThreadPoolExecutor(max_workers=chunks) as ex:
+        futs = [ex.submit(work, k, part) for k, part in enumerate(parts)]
+        outs_ = [f.result() for f in futs]
+    n_ok = 0
     drift_lines = {}
-    while todo:
-        events = [e for _, t in todo for e in t]
-        ok, rej, res = _validate(ctx, events, f"{tag}-{rnd}")
-        log(f"[{ctx.pid}] trace validation {tag}: {len(todo)} histories, {len(events)} events, {res.wall:.0f}s, "
-            f"{'accepted' if ok else 'REJECTED ' + json.dumps(rej)[:300]}")
-        ctx.tlc_stats(res, f"trace validation {tag}: {len(todo)} histories, {len(events)} events")
-        starts, n = [], 0
-        for idx, t in todo:
-            starts.append((n, idx, t))
-            n += len(t)
-        def locate(line):
-            for n0, idx, t in starts:
-                if line <= n0 + len(t):
-                    return idx, line - n0
-            raise ToolError(f"trace validation {tag}: line {line} outside the trace")
-        limit = len(events) if ok else rej["line"] - 1
-        for k, d in res.prints:
-            if k == "DRIFT" and d["line"] <= limit:
-                idx, at = locate(d["line"])
-                drift_lines.setdefault(idx, []).append((at, d))
-        if ok:
-            n_ok += len(todo)
-            break
-        idx, at = locate(rej["line"])
-        ev = traces[idx][at - 1]
-        ctx.violation({"kind": "history", "what": what, "steps": hists[idx], "reject": dict(rej, at=at), "event": ev,
-                       "observed": [s.get("obs") for s in outs[idx]["steps"]][-3:]},
-                      f"{what}: the real node violated {sorted(rej.get('clauses', []))} at event {at} "
-                      f"({json.dumps(ev.get('r'))} on {json.dumps(ev.get('o'))}: http {json.dumps(ev.get('h'))} flight {json.dumps(ev.get('f'))})")
-        pos = [j for j, (i, _) in enumerate(todo) if i == idx][0]
-        n_ok += pos
-        todo = todo[pos + 1:]
-        rnd += 1
-        if rnd > budget:
-            raise ToolError(f"trace validation {tag}: more than {budget} rejected histories")
-    ctx.add("histories_matching_model_exactly", len(outs) - len(drift_lines) - len([v for v in ctx.violations]))
+    for n, drifts, viols, runs in outs_:
+        n_ok += n
+        drift_lines.update(drifts)
+        for res, label in runs:
+            ctx.tlc_stats(res, label)
+        for idx, at, rej in viols:
+            ev = traces[idx][at - 1]
+            ctx.violation({"kind": "history", "what": what, "steps": hists[idx], "reject": dict(rej, at=at), "event": ev,
+                           "observed": [s.get("obs") for s in outs[idx]["steps"]][-3:]},
+                          f"{what}: the real node violated {sorted(rej.get('clauses', []))} at event {at} "
+                          f"({json.dumps(ev.get('r'))} on {json.dumps(ev.get('o'))}: http {json.dumps(ev.get('h'))} flight {json.dumps(ev.get('f'))})")
+    ctx.add("histories_matching_model_exactly", n_ok - len([i for i in drift_lines]))
     for idx, ds in sorted(drift_lines.items()):
         ctx.add("drift_histories")
         ctx.add("drift_events", len(ds))
@@ -485,12 +528,13 @@ def run_family(ctx, P):
     ex = ThreadPoolExecutor(max_workers=4)
     # (M) exhaustive + kill matrix, in the background
     f_mc = ex.submit(model_check, ctx, "as built", eps=P["eps"], sizes=P["sizes_mc"], peers=P.get("npeers_mc", NP))
-    f_mut = {m: ex.submit(model_check, ctx, m, eps=P["eps"], sizes=P["sizes_mc"], mutant=m) for m in P["mutants"]}
+    f_mut = ex.submit(kill_matrix, ctx, P["mutants"], P["sizes_mut"])
     # (R) emission
-    res_s = emit_states(ctx, eps=P["eps"], sizes=P["sizes_emit"])
+    f_s = ex.submit(emit_states, ctx, eps=P["eps"], sizes=P["sizes_emit"])
+    res_w = emit_walks(ctx, P["walks"], P["walk_depth"], ctx.seed, eps=P["eps"], sizes=P["sizes_emit"])
+    res_s = f_s.result()
     tlc_must_pass(res_s, "state emission")
     ctx.tlc_stats(res_s, "emission: one environment history per reachable node state")
-    res_w = emit_walks(ctx, P["walks"], P["walk_depth"], ctx.seed, eps=P["eps"], sizes=P["sizes_emit"])
     tlc_must_pass(res_w, "walk emission")
     ctx.tlc_stats(res_w, f"emission: {P['walks']} random walks of >= {P['walk_depth']} steps")
     if len(res_s.cases) < 300 or len(res_w.cases) < P["walks"] // 2:
@@ -503,7 +547,7 @@ def run_family(ctx, P):
     log(f"[{ctx.pid}] replayed {summ['histories']} histories, {summ['requests']} requests in {summ['wall_s']:.0f}s")
     seen, tags = set(), {}
     tally(ctx, outs, seen, tags)
-    n_ok = judge(ctx, outs, hs, "replay", P["what"])
+    n_ok = judge(ctx, outs, hs, "replay", P["what"], chunks=P.get("chunks", 3))
     foreign_notes(ctx, outs)
     ctx.add("histories_replayed", len(outs))
     ctx.add("traces_validated_against_impl", n_ok)
@@ -522,8 +566,7 @@ def run_family(ctx, P):
             if res.coverage.get(act, 0) <= 0:
                 raise ToolError(f"(M): action {act} never taken (coverage {res.coverage})")
     kills = {}
-    for m, fut in f_mut.items():
-        r = fut.result()
+    for m, r in f_mut.result().items():
         if r.error:
             raise ToolError(f"mutant {m}: TLC error {r.error[:300]}")
         clauses = sorted({c for k, d in r.prints if k == "VIOLATED" for c in d["clauses"]})
